@@ -533,6 +533,59 @@ func genHistoryHooked(rng *RNG, w *hWorld, nOps int, allowRebuild bool, hook fun
 			emit(hOp{Kind: "getblockid", I: rng.Intn(nTok), Fact: f})
 		}
 	}
+	// fork phase: siblings derived from a parent deep enough for its slices to have spare
+	// capacity (3, 5 or 6 blocks) — the first sibling must not be affected by the second
+	if nTok > 0 {
+		best := 0
+		for i := range w.tokens {
+			if len(w.tokContent[i]) > len(w.tokContent[best]) && len(w.tokBase[i]) == 0 && !w.tokForeign[i] {
+				best = i
+			}
+		}
+		sealedTok := func(i int) bool { return containerOf(w.tokens[i]).ProofKind != 0 }
+		if !sealedTok(best) {
+			want := []int{3, 5, 6}[rng.Intn(3)]
+			grow := func(parent int) int {
+				emit(hOp{Kind: "createblock", I: parent})
+				j := nBb
+				nBb++
+				emit(hOp{Kind: "bbfact", I: j, Fact: pg.fact()})
+				if rng.Bool() {
+					emit(hOp{Kind: "bbcheck", I: j, Check: g.check()})
+				}
+				if emit(hOp{Kind: "bbbuild", I: j}) != "HDone" {
+					return -1
+				}
+				builtBb[j]++
+				b := nBlk
+				nBlk++
+				if emit(hOp{Kind: "append", I: parent, J: b, Src: rng.Bytes(32)}) != "HDone" {
+					return -1
+				}
+				nTok++
+				return nTok - 1
+			}
+			cur := best
+			for cur >= 0 && len(w.tokContent[cur])-1 < want {
+				cur = grow(cur)
+			}
+			if cur >= 0 {
+				if rng.Bool() {
+					if emit(hOp{Kind: "reload", I: cur}) == "HDone" {
+						nTok++
+						cur = nTok - 1
+					}
+				}
+				grow(cur)
+				grow(cur)
+				if emit(hOp{Kind: "seal", I: cur}) == "HDone" {
+					nTok++
+				}
+				grow(cur)
+				emit(hOp{Kind: "getblockid", I: cur, Fact: pg.fact()})
+			}
+		}
+	}
 	return ops, outs
 }
 
@@ -706,7 +759,7 @@ func sblockEqual(a, b SBlock) bool { return blockString(a) == blockString(b) }
 // ---------- the two runners ----------
 
 func runHistories(res *Result, rng *RNG, tier string, outDir string, prop string) {
-	n, nOps := 40, 45
+	n, nOps := 20, 35
 	if tier == "thorough" {
 		n, nOps = 500, 70
 	}
